@@ -8,6 +8,9 @@ DOCS = {
     "relative_path": f'<svg {NS} viewBox="0 0 64 64"><path d="M2,2 h10 v10 h-10 z m20,0 q5,5 10,0 t10,0 s5,5 8,2" fill="#123456"/></svg>',
     "use": f'<svg {NS} viewBox="0 0 100 100"><defs><rect id="r" width="10" height="10"/></defs><use xlink:href="#r" x="5" y="6" fill="red"/><use xlink:href="#r" transform="rotate(30)" opacity="0.5"/></svg>',
     "nested": f'<svg {NS} viewBox="0 0 100 100"><svg x="10" y="10" width="50" height="40" viewBox="0 0 10 10"><rect width="10" height="10" fill="teal"/></svg></svg>',
+    "round_cap_line_small_canvas": f'<svg {NS} viewBox="0 0 100 100"><path d="M20,50 L80,50" fill="none" stroke="black" stroke-width="20" stroke-linecap="round"/></svg>',
+    "round_cap_line_large_canvas": f'<svg {NS} viewBox="0 0 1000 1000"><path d="M20,50 L80,50" fill="none" stroke="black" stroke-width="20" stroke-linecap="round"/></svg>',
+    "prefixed_svg_namespace": '<svg:svg xmlns="http://www.w3.org/1999/xhtml" xmlns:svg="http://www.w3.org/2000/svg" viewBox="0 0 10 10"><svg:rect width="5" height="5" fill="blue"/></svg:svg>',
     "gradient_clones_two": f'<svg {NS} viewBox="0 0 100 100"><defs><linearGradient id="g"><stop offset="0" stop-color="red"/><stop offset="1" stop-color="blue"/></linearGradient></defs><rect width="20" height="10" fill="url(#g)" transform="translate(5 5)"/><rect width="20" height="10" fill="url(#g)" transform="translate(5 40) scale(2)"/></svg>',
     "gradient_clones_one": f'<svg {NS} viewBox="0 0 100 100"><defs><linearGradient id="g"><stop offset="0" stop-color="lime"/><stop offset="1" stop-color="teal"/></linearGradient></defs><rect width="30" height="10" fill="url(#g)" transform="rotate(10)"/></svg>',
     "group_style_vs_child_attribute": f'<svg {NS} viewBox="0 0 100 100"><g style="fill:red"><rect width="5" height="5" fill="blue"/><circle r="3" cx="20" cy="20"/></g></svg>',
